@@ -13,6 +13,7 @@ export GOFLAGS=-mod=mod GOPROXY=off GOSUMDB=off GOTOOLCHAIN=local
 export VERIF_SEED="${VERIF_SEED:-1}"
 case "$MODE" in
   quick|thorough) export VERIF_TIER="$MODE" ;;
+  build) export VERIF_TIER=quick ;;
   replay) export VERIF_REPLAY="${3:?replay needs a file}"
           export VERIF_TIER="$(jq -r '.tier // "quick"' "$VERIF_REPLAY" 2>/dev/null || echo quick)"
           export VERIF_SEED="$(jq -r '.seed // 1' "$VERIF_REPLAY" 2>/dev/null || echo 1)" ;;
@@ -52,12 +53,14 @@ case "$ID" in
     fi
     mkdir -p "$BUILD/gen"
     GENARGS=()
-    for f in "$HERE"/idl/*.tars; do
-      if ! (cd "$BUILD/gen" && "$BUILD/tars2go" -outdir "$BUILD/gen" -module verif/gen -add-servant=false -without-trace=true "$f") >"$BUILD/t2g.log" 2>&1; then
+    cp "$HERE"/idl/*.tars "$BUILD/"
+    for f in "$BUILD"/*.tars; do
+      # relative -outdir: the generator derives the import path of included modules from module + outdir
+      if ! (cd "$BUILD" && "$BUILD/tars2go" -outdir gen -module verif -add-servant=false -without-trace=true "$(basename "$f")") >"$BUILD/t2g.log" 2>&1; then
         violation_file "tars2go-rejects-valid-idl" "$BUILD/t2g.log"; exit 1
       fi
     done
-    TARS_LIST=$(ls "$VERIF_REPO"/tars/protocol/res/*.tars "$HERE"/idl/*.tars | tr '\n' ',' | sed 's/,$//')
+    TARS_LIST=$(ls "$VERIF_REPO"/tars/protocol/res/*.tars "$BUILD"/*.tars | tr '\n' ',' | sed 's/,$//')
     first=1
     for d in "$VERIF_REPO"/tars/protocol/res/*/; do
       n=$(basename "$d")
@@ -97,6 +100,7 @@ if ! go build -tags "$TAGS" $RACE $OVERLAY -o "$BUILD/$id_lc" "./cmd/$id_lc" 2>"
   echo "BUILD-FAILED property=$ID" >&2
   exit 3
 fi
+[ "$MODE" = build ] && exit 0
 export GORACE="${GORACE:-halt_on_error=0 exitcode=0 atexit_sleep_ms=0 log_path=$BUILD/race}"
 "$BUILD/$id_lc" 2>"$BUILD/stderr.log" | tee "$BUILD/stdout.log"
 rc=${PIPESTATUS[0]}
